@@ -21,7 +21,7 @@ ACCEPT, REJECT, SKIP = D.ACCEPT, D.REJECT, D.SKIP
 TIERS = {
     #            per-builtin literals, restriction cases, chain cases, list cases, union cases, matrices, values/derived case
     'quick':    dict(nb=250, nr=420, nc=90, nl=150, nu=150, nm=132, nv=44, pfrac=0.5, pcrash=0.03),
-    'thorough': dict(nb=5000, nr=10000, nc=2000, nl=3500, nu=3500, nm=4000, nv=60, pfrac=0.35, pcrash=0.001),
+    'thorough': dict(nb=4000, nr=8000, nc=1600, nl=2800, nu=2800, nm=3200, nv=60, pfrac=0.35, pcrash=0.001),
 }
 MATRIX_N = 12
 
@@ -525,6 +525,8 @@ class Judge:
                                'XSValue::validate and DatatypeValidator::validate disagree', c, idx, expected='same verdict (validator: %s, model: %s)' % (lib_ok, mv.v), observed='xsvalue: %s st=%s' % (x_ok, kv.get('st')))
         if not (x_ok and lib_ok):
             return
+        if mv.v == REJECT:
+            return          # both routes accept a literal the reference rejects: reported on route 1; what they then derive from it is not judged
         xc, cst = kv.get('can', '~'), kv.get('cst')
         if not s.strip(D.WS_CHARS):
             F.skip('xsvalue:empty-content-convention')
